@@ -11,7 +11,7 @@ import (
 	"verifharness/vf"
 )
 
-var profile = crasheng.Profile{AbortPct: 25, MaxTxns: 10, Checkpoint: 25, Bulk: 12, OpenMid: 10}
+var profile = crasheng.Profile{AbortPct: 25, MaxTxns: 10, Checkpoint: 25, Bulk: 12, OpenMid: 10, Huge: 6}
 
 const rule = "Case = generated history (as C01/C02: inserts of 8-1200 byte rows, in-place / relocating updates, deletes, statements that insert or enlarge 8-24 long rows at once (one open transaction dirties more pages than the pool holds: steal), commits, explicit aborts, forced checkpoints after commits and after aborts, pools of 12-100 frames so that evictions happen, CREATE TABLE included in the trace) executed on a recorded file-backed instance; the whole WritePage/WriteLog/GCLogFile trace with commit-return markers is checked after the run: (W1) every write of a user heap page (classified from NEWTABLEPAGE records; catalog heaps rooted at pages 0/1, index and temporary pages are skipped) carries an LSN <= the newest LSN contained in any log write before it; (W2) at the commit return of every writing transaction a COMMIT record with its transaction id is in the log written so far; (W3) after every log write the log parses (independent parser) into whole records of known types with size >= 20, increasing LSNs and per-transaction prevLSN chains. Non-trivial = the trace contains a user-heap page write whose LSN is newer than the log high-water mark before the most recent log write (the ordering mattered) or a commit of a writer."
 
